@@ -105,9 +105,18 @@ def invariant(blocks, h, w, cfg):
         return "not-a-partition"
     if any(len(b) == 0 for b in blocks):
         return "empty-block"
-    edges = graphref.grid_edges(h, w)
     for b in blocks:
-        if not graphref.induced_connected(h * w, edges, [y * w + x for (y, x) in b]):
+        cells = set(tuple(c) for c in b)
+        start = next(iter(cells))
+        seen = {start}
+        stack = [start]
+        while stack:
+            y, x = stack.pop()
+            for c in ((y + 1, x), (y - 1, x), (y, x + 1), (y, x - 1)):
+                if c in cells and c not in seen:
+                    seen.add(c)
+                    stack.append(c)
+        if len(seen) != len(cells):
             return "disconnected-block"
     if not (mnb <= len(blocks) <= mxb):
         return "block-count-out-of-bounds"
@@ -249,7 +258,7 @@ def explore_config(part, h, w, cfg, seeds_from_all_valid, state_cap):
         restore_source(seg, saved)
 
 
-def long_walk(part, h, w, cfg, steps, stride):
+def long_walk(part, h, w, cfg, steps, stride, start="initial"):
     """Deterministic long history on a board too large for BFS: starting from initial(), repeatedly apply one of the
     proposed updates (picked by a fixed stride), checking the invariant and immutability at every step."""
     from cspuz.generator import segmentation as seg
@@ -257,7 +266,17 @@ def long_walk(part, h, w, cfg, steps, stride):
     saved = save_source(seg)
     case = {"board": [h, w], "config": list(cfg), "walk_stride": stride}
     try:
-        b = make_builder(h, w, cfg)
+        kw = {}
+        if start == "singles":
+            kw["initial_blocks"] = [[(y, x)] for y in range(h) for x in range(w)]
+        elif start == "rows":
+            kw["initial_blocks"] = [[(y, x) for x in range(w)] for y in range(h)]
+        elif start == "snake-halves":
+            # two rooms each touching the last column in one row and the first column in the next
+            order = graphref.boustrophedon(h, w)
+            kw["initial_blocks"] = [order[: len(order) // 2], order[len(order) // 2 :]]
+        b = make_builder(h, w, cfg, **kw)
+        case["start"] = start
         set_source(seg, Scripted(stride))
         try:
             cur = b.initial()
@@ -327,8 +346,8 @@ def configs(h, w, tier):
 
 def worker(shard, part):
     if shard[0] == "walk":
-        _, h, w, cfg, steps, stride = shard
-        long_walk(part, h, w, cfg, steps, stride)
+        _, h, w, cfg, steps, stride = shard[:6]
+        long_walk(part, h, w, cfg, steps, stride, shard[6] if len(shard) > 6 else "initial")
         return
     h, w, cfgs, allvalid, cap = shard
     for cfg in cfgs:
@@ -353,6 +372,11 @@ def main(tier, seed, only=None):
         for cfg in walk_cfgs:
             for stride in ((1, 5) if tier == "quick" else (1, 5, 11)):
                 shards.append(("walk", h, w, cfg, 150 if tier == "quick" else 400, stride))
+    # boards wider than 64 columns and partitions with more than 256 rooms (thresholds of packed keys / small-int identity)
+    for (h, w, start) in [(2, 70, "initial"), (2, 70, "rows"), (2, 70, "snake-halves"), (3, 66, "snake-halves"), (16, 17, "singles"), (2, 150, "singles")] + \
+            ([] if tier == "quick" else [(1, 300, "singles"), (4, 130, "snake-halves"), (20, 20, "singles"), (70, 2, "snake-halves")]):
+        for stride in (1, 5):
+            shards.append(("walk", h, w, (None, None, None, None), 10 if tier == "quick" else 60, stride, start))
     run = harness.Run(
         PID, tier, seed, "model_checking",
         "boards with h*w <= %d (all shapes incl. 1xN); configurations: all (min_blocks, max_blocks, min_size, max_size) over {None,1,2,3,h*w} "
@@ -361,7 +385,7 @@ def main(tier, seed, only=None):
         "over updates proposed by the real candidates(), the two seeds of every split_block call swept over all n^2 pairs, every state "
         "expanded in two presentations (canonical, reversed).  Invariant per state: partition, connected blocks, count and sizes in bounds; "
         "per transition: source value and earlier results unchanged.  Scale family: deterministic walks of 150 (thorough 400) steps on 5x5, 4x8, 10x10 "
-        "(thorough 17x17, 1x40) boards under 6 configurations, judging every proposed update of every visited state." % (maxcells, " (boards <= 4 cells)" if tier == "quick" else ""),
+        "(thorough 17x17, 1x40) boards under 6 configurations, judging every proposed update of every visited state; also boards 2x70 / 3x66 and partitions with 272 / 300 single-cell rooms given as initial_blocks." % (maxcells, " (boards <= 4 cells)" if tier == "quick" else ""),
     )
     run.assumptions = [
         "canonical state = sorted tuple of sorted blocks; sound because the set of proposed successor partitions is independent of block / cell "
